@@ -70,35 +70,45 @@ def gen_c37(d, opts):
     nops = d.weighted("n", [(d.between("nshort", 2, 5), 5), (d.between("nmid", 6, 14), 3), (d.between("nlong", 15, 30), 2)])
     ops = [dict(id=0, op="create")]
     uid = 1
+    # a "hot" key attracts most key-taking operations, so that multi-step
+    # histories on ONE point (put, unload, read, overwrite, unload, read ...) are common
+    hot = d.pick("hot", pool)
+    hot_p = d.pick("hot_p", [0.0, 0.5, 0.8])
+    # generator-side shadow of the session state: keeps most operations meaningful
+    # (the interpreter stays total: ~10% of the operations ignore the shadow)
+    st = dict(open=True, disk=False, mode="rw")
     for i in range(1, nops + 1):
-        kind = d.weighted(
-            "op",
-            [
-                ("put", 7),
-                ("get", 5),
-                ("del", 4),
-                ("ctx", 2),
-                ("unload_all", 1),
-                ("contains", 2),
-                ("approx", 3),
-                ("items", 1),
-                ("close", 2),
-                ("open_rw", 2),
-                ("open_ro", 1),
-                ("abandon", 1),
-                ("create", 1),
-            ],
-        )
+        if d.chance("wild", 0.1):
+            table = [("put", 7), ("get", 5), ("del", 4), ("ctx", 2), ("unload_all", 1), ("contains", 2), ("approx", 3), ("items", 1), ("close", 2), ("open_rw", 2), ("open_ro", 1), ("abandon", 1), ("create", 1)]
+        elif st["open"] and st["mode"] == "rw":
+            table = [("put", 9), ("get", 6), ("del", 5), ("ctx", 2), ("unload_all", 1), ("contains", 1), ("approx", 3), ("items", 1), ("close", 3), ("abandon", 1)]
+        elif st["open"]:
+            table = [("get", 6), ("del", 4), ("ctx", 2), ("unload_all", 1), ("contains", 1), ("approx", 3), ("items", 1), ("close", 3), ("abandon", 1)]
+        elif st["disk"]:
+            table = [("open_rw", 6), ("open_ro", 3)]
+        else:
+            table = [("create", 1)]
+        kind = d.weighted("op", table)
+        if kind == "create" and not st["open"] and not st["disk"]:
+            st.update(open=True, mode="rw")
+        elif kind in ("open_rw", "open_ro") and not st["open"] and st["disk"]:
+            st.update(open=True, mode=kind[-2:])
+        elif kind == "close" and st["open"]:
+            if st["mode"] == "rw":
+                st["disk"] = True
+            st["open"] = False
+        elif kind == "abandon" and st["open"]:
+            st["open"] = False
         op = dict(id=i, op=kind)
         if kind in ("put", "get", "del", "ctx", "contains"):
-            op["key"] = d.pick("opkey", pool)
+            op["key"] = hot if d.chance("usehot", hot_p) else d.pick("opkey", pool)
         if kind == "put":
             op["val"] = gen_val(d, uid, 2)
             uid += 1
         if kind == "approx":
             k = d.pick("opkey", pool)
             q = dict(k)
-            q["scale"] = k["scale"] * (1 + d.pick("aeps", [0.0, 1e-9, -1e-9, 5e-4, -5e-4, 0.2]))
+            q["scale"] = k["scale"] * (1 + d.pick("aeps", [0.0, 0.0, 1e-9, -1e-9, 5e-4, -5e-4, 0.2]))
             q["nf"] = d.weighted("anf", [(k["nf"], 5), (3 + (k["nf"] - 2) % 4, 1)])
             q["stype"] = "float"
             op["key"] = q
@@ -142,6 +152,33 @@ def vary_cards(d, th, opc):
     return th, opc
 
 
+def gen_recipes(d):
+    """A few recipe headers (evolution segments and matchings)."""
+    out = []
+    for _ in range(d.between("r:n", 2, 4)):
+        if d.chance("r:kind", 0.7):
+            out.append(dict(kind="E", origin=round(d.uniform("r:o", 1.0, 100.0), 3), target=round(d.uniform("r:t", 1.0, 1e4), 3), nf=d.pick("r:nf", [3, 4, 5, 6]), cliff=d.chance("r:cliff", 0.3)))
+        else:
+            out.append(dict(kind="M", scale=round(d.uniform("r:s", 1.0, 1e4), 3), hq=d.pick("r:hq", [4, 5, 6]), inverse=d.chance("r:inv", 0.3)))
+    return out
+
+
+def gen_extras(d, tag, rpool, uid):
+    """Edits other than operators: metadata (xgrid), parts, recipes."""
+    out = []
+    if d.chance(f"x:{tag}:xgrid", 0.35):
+        n = d.between(f"x:{tag}:nx", 2, 6)
+        grid = sorted(set(round(d.uniform(f"x:{tag}:xv", 1e-4, 0.9), 6) for _ in range(n - 1))) + [1.0]
+        out.append(dict(op="set_xgrid", grid=grid, log=d.chance(f"x:{tag}:log", 0.7)))
+    for _ in range(d.pick(f"x:{tag}:nparts", [0, 0, 1, 2])):
+        out.append(dict(op="put_part", recipe=d.pick(f"x:{tag}:rp", rpool), val=gen_val(d, uid + len(out), 2, big=True)))
+    if d.chance(f"x:{tag}:recipes", 0.3):
+        out.append(dict(op="load_recipes", recipes=d.sample(f"x:{tag}:rs", rpool, d.between(f"x:{tag}:nr", 1, len(rpool)))))
+    if d.chance(f"x:{tag}:update", 0.15):
+        out.append(dict(op="update"))
+    return d.shuffle(f"x:{tag}:order", out)
+
+
 def gen_c36(d, opts):
     pool = gen_keypool(d, numpy_types=True, n=d.between("k:n36", 1, 6))
     th, opc = cards.gen_cards(d, real=False, max_targets=2)
@@ -152,6 +189,12 @@ def gen_c36(d, opts):
     first = d.sample("c36:first", pool, d.between("c36:nfirst", 0, len(pool)))
     for k in first:
         ops.append(dict(id=i, op="put", key=k, val=gen_val(d, uid, 2, big=True)))
+        i += 1
+        uid += 1
+    rpool = gen_recipes(d)
+    for extra in gen_extras(d, "s1", rpool, uid):
+        extra["id"] = i
+        ops.append(extra)
         i += 1
         uid += 1
     ops.append(dict(id=i, op="close"))
@@ -171,6 +214,10 @@ def gen_c36(d, opts):
     if d.chance("c36:touch", 0.5):
         ops.append(dict(id=i, op="get", key=d.pick("c36:g", pool)))
         i += 1
+    for extra in gen_extras(d, "s2", rpool, uid + 100):
+        extra["id"] = i
+        ops.append(extra)
+        i += 1
     ops.append(dict(id=i, op="close"))
     i += 1
     ops.append(dict(id=i, op="open_ro"))
@@ -182,17 +229,27 @@ def gen_c36(d, opts):
 
 
 STORE_ATTEMPTS = ["put", "put_operators", "put_parts", "put_parts_matching", "load_recipes", "put_recipe", "set_xgrid", "update", "dump_default"]
-HARMLESS = ["get", "del", "contains", "iter", "unload_all", "items", "approx", "cards", "dump_other", "close_again", "ctx"]
+HARMLESS = ["get", "del", "contains", "iter", "unload_all", "items", "approx", "cards", "dump_other", "close_again", "ctx", "get_recipe", "get_part", "sync_all"]
 
 
 def gen_c39(d, opts):
     pool = gen_keypool(d, n=d.between("k:n39", 2, 4))
+    rpool = gen_recipes(d)
     th, opc = cards.gen_cards(d, real=False, max_targets=2)
     ops = [dict(id=0, op="create")]
     i = 1
     uid = 1
     for k in d.sample("c39:first", pool, d.between("c39:nfirst", 1, len(pool))):
         ops.append(dict(id=i, op="put", key=k, val=gen_val(d, uid, 2)))
+        i += 1
+        uid += 1
+    # recipes and parts stored while the EKO is still writable: later store
+    # attempts hit headers the inventories already know
+    if d.chance("c39:prerecipes", 0.7):
+        ops.append(dict(id=i, op="load_recipes", recipes=d.sample("c39:rs", rpool, d.between("c39:nr", 1, len(rpool)))))
+        i += 1
+    for _ in range(d.pick("c39:npart", [0, 1, 2])):
+        ops.append(dict(id=i, op="put_part", recipe=d.pick("c39:rp", rpool), val=gen_val(d, uid, 2)))
         i += 1
         uid += 1
     mode = d.weighted("c39:mode", [("ro", 4), ("closed_rw", 3), ("closed_ro", 2), ("mixed", 2)])
@@ -205,6 +262,9 @@ def gen_c39(d, opts):
         ops.append(dict(id=i, op="open_ro"))
         i += 1
         if mode == "closed_ro":
+            for _ in range(d.pick("c39:preread", [0, 1, 2])):
+                ops.append(dict(id=i, op=d.pick("c39:prk", ["get_recipe", "get_part", "sync_all", "get"]), key=d.pick("c39:key", pool), recipe=d.pick("c39:rp", rpool)))
+                i += 1
             ops.append(dict(id=i, op="close"))
             i += 1
     n = d.between("c39:n", 1, 14)
@@ -219,6 +279,10 @@ def gen_c39(d, opts):
         if kind in ("put", "put_operators", "put_parts", "put_parts_matching"):
             op["val"] = gen_val(d, uid, 2)
             uid += 1
+        if kind in ("put_parts", "put_parts_matching", "put_recipe", "get_recipe", "get_part"):
+            op["recipe"] = d.pick("c39:rp", rpool)
+        if kind == "load_recipes":
+            op["recipes"] = d.sample("c39:rs", rpool, d.between("c39:nr", 1, len(rpool)))
         ops.append(op)
         i += 1
         if mode == "mixed" and d.chance("c39:mixclose", 0.2):
@@ -243,7 +307,8 @@ class Model:
 
     def __init__(self):
         self.disk = None  # {key_id: valspec} once an archive exists
-        self.sess = None  # dict(mode, working, open)
+        self.sess = None  # dict(mode, working, meta, parts, recipes)
+        self.disk_extra = None  # dict(meta, parts, recipes) persisted with the archive
 
     def keys(self):
         return set(self.sess["working"]) if self.sess else set()
@@ -385,9 +450,9 @@ class Interp:
             return False
         builder = EKO.create(self.path)
         self.eko = builder.load_cards(self.th, self.opc).build()
-        self.model.sess = dict(mode="rw", working={})
         self.card_raw = (self.th.raw, self.opc.raw)
         self.meta_raw = self.eko.metadata.raw
+        self.model.sess = dict(mode="rw", working={}, meta=dict(self.meta_raw), parts={}, recipes=set())
         return True
 
     def do_open(self, op, mode):
@@ -404,7 +469,8 @@ class Interp:
             self.v("reopen-raised", f"re-opening the archive ({mode}) raised {type(e).__name__}: {str(e)[:300]}", op, key=f"reopen-raised:{type(e).__name__}")
             self.eko = None
             return True
-        self.model.sess = dict(mode=mode, working=dict(self.model.disk))
+        ex = self.model.disk_extra or dict(meta=dict(self.meta_raw), parts={}, recipes=set())
+        self.model.sess = dict(mode=mode, working=dict(self.model.disk), meta=dict(ex["meta"]), parts=dict(ex["parts"]), recipes=set(ex["recipes"]))
         return True
 
     def check_archive_unchanged(self, op, when):
@@ -433,6 +499,7 @@ class Interp:
             return True
         if mode == "rw":
             self.model.disk = dict(self.model.sess["working"])
+            self.model.disk_extra = dict(meta=dict(self.model.sess["meta"]), parts=dict(self.model.sess["parts"]), recipes=set(self.model.sess["recipes"]))
             self.mutations += 1
             with self.sm.paused():
                 self.sha_at_open = _sha(self.path) if self.path.exists() else None
@@ -576,7 +643,38 @@ class Interp:
             return True
         if kind == "verify":
             return self.do_verify(op)
+        if kind in ("set_xgrid", "put_part", "load_recipes", "update"):
+            if mode != "rw":
+                return False
+            return self.do_extra(op, kind)
         raise HarnessError(f"unknown op {kind}")
+
+    def do_extra(self, op, kind):
+        """Explicit changes other than final operators: metadata, parts, recipes."""
+        from eko import interpolation
+
+        eko = self.eko
+        sess = self.model.sess
+        try:
+            if kind == "set_xgrid":
+                g = interpolation.XGrid(op["grid"], log=op.get("log", True))
+                eko.xgrid = g
+                sess["meta"] = dict(sess["meta"])
+                sess["meta"]["xgrid"] = g.dump()["grid"]
+            elif kind == "put_part":
+                h = _header(op["recipe"])
+                (eko.parts if op["recipe"]["kind"] == "E" else eko.parts_matching)[h] = self.expected(op["val"])
+                sess["parts"][_rkey(op["recipe"])] = op["val"]
+            elif kind == "load_recipes":
+                eko.load_recipes([_header(r) for r in op["recipes"]])
+                sess["recipes"].update(_rkey(r) for r in op["recipes"])
+            else:
+                eko.update()
+        except Exception as e:
+            self.v("edit-raised", f"{kind} on a writable EKO raised {type(e).__name__}: {str(e)[:200]}", op, key=f"edit-raised:{kind}")
+            return True
+        self.mutations += 1
+        return True
 
     def do_verify(self, op):
         """Full read-back (C36): every point bitwise, cards and metadata equal."""
@@ -605,8 +703,8 @@ class Interp:
             self.v("theory-card-differs", f"theory card read back {th} != written {self.card_raw[0]}", op)
         elif archive.canon(oc) != archive.canon(self.card_raw[1]):
             self.v("operator-card-differs", f"operator card read back {oc} != written {self.card_raw[1]}", op)
-        elif archive.canon(md) != archive.canon(self.meta_raw):
-            self.v("metadata-differs", f"metadata read back {md} != written {self.meta_raw}", op)
+        elif archive.canon(md) != archive.canon(self.model.sess["meta"]):
+            self.v("metadata-differs", f"metadata read back {md} != written {self.model.sess['meta']}", op)
         return True
 
     # ------------------------------------------------------------------ C39
@@ -616,9 +714,9 @@ class Interp:
         from eko.io.items import Evolution, Matching, Target
 
         eko = self.eko
-        if eko is None or self.model.disk is None:
-            return False
         sess = self.model.sess
+        if eko is None or (sess is None and self.model.disk is None):
+            return False
         if sess is not None and sess["mode"] == "rw":
             # a writable open EKO: only the generator's initial puts happen here
             if kind == "put":
@@ -626,6 +724,8 @@ class Interp:
                 eko[values.realize_key(op["key"])] = self.expected(op["val"])
                 sess["working"][kid] = op["val"]
                 return True
+            if kind in ("load_recipes", "put_part"):
+                return self.do_extra(op, kind)
             return False
         state = "read-only" if sess is not None else "closed"
         if sess is None:
@@ -638,14 +738,28 @@ class Interp:
                 eko[values.realize_key(op["key"])] = self.expected(op["val"])
             elif kind == "put_operators":
                 eko.operators[Target.from_ep(values.realize_key(op["key"]))] = self.expected(op["val"])
-            elif kind == "put_parts":
-                eko.parts[Evolution(1.0, 2.0, 4)] = self.expected(op["val"])
-            elif kind == "put_parts_matching":
-                eko.parts_matching[Matching(2.0, 4, False)] = self.expected(op["val"])
+            elif kind in ("put_parts", "put_parts_matching"):
+                r = op.get("recipe")
+                if r is None or (r["kind"] == "E") != (kind == "put_parts"):
+                    h = Evolution(1.0, 2.0, 4) if kind == "put_parts" else Matching(2.0, 4, False)
+                else:
+                    h = _header(r)
+                (eko.parts if kind == "put_parts" else eko.parts_matching)[h] = self.expected(op["val"])
             elif kind == "load_recipes":
-                eko.load_recipes([Evolution(1.0, 2.0, 4), Matching(2.0, 4, False)])
+                eko.load_recipes([_header(r) for r in op.get("recipes", [])] or [Evolution(1.0, 2.0, 4), Matching(2.0, 4, False)])
             elif kind == "put_recipe":
-                eko.recipes[Evolution(1.0, 3.0, 4, cliff=True)] = None
+                r = op.get("recipe")
+                h = _header(r) if r is not None else Evolution(1.0, 3.0, 4, cliff=True)
+                (eko.recipes if isinstance(h, Evolution) else eko.recipes_matching)[h] = None
+            elif kind == "get_recipe":
+                h = _header(op["recipe"])
+                (eko.recipes if isinstance(h, Evolution) else eko.recipes_matching)[h]
+            elif kind == "get_part":
+                h = _header(op["recipe"])
+                (eko.parts if isinstance(h, Evolution) else eko.parts_matching)[h]
+            elif kind == "sync_all":
+                for inv in (eko.recipes, eko.recipes_matching, eko.parts, eko.parts_matching, eko.operators):
+                    inv.sync()
             elif kind == "set_xgrid":
                 eko.xgrid = interpolation.XGrid([0.2, 0.6, 1.0])
             elif kind == "update":
@@ -698,6 +812,26 @@ class Interp:
             self.probes["harmless_raised"] += 1
         self.check_archive_unchanged(op, f"{state}: after {kind}")
         return True
+
+
+def _header(r):
+    from eko.io.items import Evolution, Matching
+
+    if r["kind"] == "E":
+        return Evolution(origin=r["origin"], target=r["target"], nf=r["nf"], cliff=r["cliff"])
+    return Matching(scale=r["scale"], hq=r["hq"], inverse=r["inverse"])
+
+
+def _rkey(r):
+    if r["kind"] == "E":
+        return ("E", float(r["origin"]), float(r["target"]), int(r["nf"]), bool(r["cliff"]))
+    return ("M", float(r["scale"]), int(r["hq"]), bool(r["inverse"]))
+
+
+def _hkey(inv, h):
+    if inv.endswith("matching"):
+        return ("M", float(h["scale"]), int(h["hq"]), bool(h["inverse"]))
+    return ("E", float(h["origin"]), float(h["target"]), int(h["nf"]), bool(h["cliff"]))
 
 
 def _reason(text):
@@ -755,6 +889,38 @@ def final_audit(it):
             op, err = got[kid]
             if op is None or not values.same_bits(op, exp.operator) or not values.same_bits(err, exp.error):
                 it.v("final-content-differs", f"archived arrays of {kid} differ from write #{spec['uid']}")
+                return
+        ex = m.disk_extra
+        if ex is not None:
+            import yaml
+
+            md = yaml.safe_load(files["metadata.yaml"].decode())
+            if archive.canon(md) != archive.canon(ex["meta"]):
+                it.v("final-metadata-differs", f"archived metadata {md} != last written {ex['meta']}")
+                return
+            have_parts = {}
+            have_recipes = set()
+            try:
+                for inv in ("parts", "parts/matching"):
+                    for header, op, err, stem in archive.load_inventory(files, inv):
+                        have_parts[_hkey(inv, header)] = (op, err)
+                for inv in ("recipes", "recipes/matching"):
+                    for header, op, err, stem in archive.load_inventory(files, inv):
+                        have_recipes.add(_hkey(inv, header))
+            except Exception as e:
+                it.v("final-archive-corrupt", f"parts/recipes undecodable: {e!r}")
+                return
+            if sorted(have_parts) != sorted(ex["parts"]):
+                it.v("final-parts-differ", f"archive holds parts {sorted(have_parts)}; written: {sorted(ex['parts'])}")
+                return
+            for k, spec in ex["parts"].items():
+                exp = it.expected(spec)
+                op, err = have_parts[k]
+                if op is None or not values.same_bits(op, exp.operator) or not values.same_bits(err, exp.error):
+                    it.v("final-parts-differ", f"archived arrays of part {k} differ from write #{spec['uid']}")
+                    return
+            if have_recipes != set(ex["recipes"]):
+                it.v("final-recipes-differ", f"archive holds recipes {sorted(have_recipes)}; loaded: {sorted(ex['recipes'])}")
                 return
 
 
